@@ -320,6 +320,7 @@ fn c01_one(ctx: &Ctx, idx: u64, rep: &mut Report, input: Rc<Vec<u8>>, cfg: &Conf
         if via == Via::Next {
             cov_transcript(rep, &t, input.len(), cfg);
             rep.add("records_compared", r.recs.len() as u64);
+            rep.add("records_with_more_than_65535_lines", r.recs.iter().filter(|x| x.lines.len() > 65535).count() as u64);
             if r.has_err() {
                 rep.count("inputs_with_invalid_start");
             }
